@@ -55,9 +55,13 @@ type C17Scenario struct {
 	// logger's Pause() returns only when the next message is logged, and with
 	// nothing to log the prompt never appears (real dtail behaviour, DESIGN §7);
 	// ThinkMs: the time the user takes for each answer
-	StdoutLogger bool                `json:"stdout_logger,omitempty"`
-	ThinkMs      int                 `json:"think_ms,omitempty"`
-	Net          verifsimnet.Profile `json:"net"`
+	StdoutLogger bool `json:"stdout_logger,omitempty"`
+	// RivalEdit (with ThinkMs >= 700): while the first prompt of a run is open,
+	// another program (a second dcat, ssh) appends an entry of its own to
+	// known_hosts; it must still be there after this client recorded its hosts
+	RivalEdit bool                `json:"rival_edit,omitempty"`
+	ThinkMs   int                 `json:"think_ms,omitempty"`
+	Net       verifsimnet.Profile `json:"net"`
 }
 
 func c17Gen(r *Rand, tier string, i int) Scenario {
@@ -100,6 +104,7 @@ func c17Gen(r *Rand, tier string, i int) Scenario {
 	sc.FinalNL = r.Bool(0.8)
 	if r.Bool(0.3) {
 		sc.ThinkMs = PickOf(r, 100, 700, 1900, 2100, 5000)
+		sc.RivalEdit = sc.ThinkMs >= 700 && r.Bool(0.5)
 	}
 	nr := PickOf(r, 1, 1, 2, 3)
 	for k := 0; k < nr; k++ {
@@ -385,6 +390,51 @@ func c17Run(t *testing.T, s Scenario, src verifsim.DecisionSource, keep bool) *R
 				defer close(pdone)
 				w.RunClient(proc, false)
 			})
+			rivalLine := ""
+			if sc.RivalEdit && sc.ThinkMs >= 700 {
+				rnode := w.Sim.NewNode(fmt.Sprintf("rival%d", ri), "client", "clienthost")
+				w.Sim.GoOn(rnode, "harness/rival-edit", func() {
+					seen := false
+					for k := 0; k < 3000 && !seen; k++ {
+						select {
+						case <-pdone:
+							return
+						default:
+						}
+						if c17PromptRe.Match(w.Stdout(-1)[startOut:]) {
+							seen = true
+							break
+						}
+						w.Sleep(20 * time.Millisecond)
+					}
+					if !seen {
+						return
+					}
+					w.Sleep(time.Duration(sc.ThinkMs/3) * time.Millisecond)
+					select {
+					case <-pdone:
+						return
+					default:
+					}
+					cur, err := os.ReadFile(khPath)
+					if err != nil {
+						return
+					}
+					line := knownhosts.Line([]string{fmt.Sprintf("rival%d.example.org:2222", ri)}, Key(60+ri).Signer.PublicKey())
+					add := line + "\n"
+					if len(cur) > 0 && cur[len(cur)-1] != '\n' {
+						add = "\n" + add
+					}
+					f, err := os.OpenFile(khPath, os.O_APPEND|os.O_WRONLY, 0600)
+					if err != nil {
+						return
+					}
+					f.WriteString(add)
+					f.Close()
+					rivalLine = line
+					w.Sim.Fault("known_hosts.edited-by-another-program")
+				})
+			}
 			if run.CancelAtMs >= 0 {
 				w.Sim.GoOn(pnode, "harness/ctrl-c", func() {
 					w.Sleep(time.Duration(run.CancelAtMs) * time.Millisecond)
@@ -498,7 +548,11 @@ func c17Run(t *testing.T, s Scenario, src verifsim.DecisionSource, keep bool) *R
 					rekeyed = true
 				}
 			}
-			if len(newlyTrusted) == 0 && len(batches) == 0 && !bytes.Equal(before, after) && !(rekeyed && run.TrustAll) {
+			if rivalLine != "" && afterLines[rivalLine] == 0 {
+				fail("known-hosts-entry-lost", fmt.Sprintf("run %d: the entry %q, added to known_hosts by another program while the prompt was open (%d ms before the answer), is gone after this client recorded its hosts",
+					ri, trunc(rivalLine, 60), sc.ThinkMs-sc.ThinkMs/3))
+			}
+			if len(newlyTrusted) == 0 && len(batches) == 0 && !bytes.Equal(before, after) && !(rekeyed && run.TrustAll) && rivalLine == "" {
 				fail("known-hosts-changed", fmt.Sprintf("run %d: no host was newly trusted but known_hosts changed (%d -> %d bytes)", ri, len(before), len(after)))
 			}
 			for _, l := range strings.Split(string(before), "\n") {
